@@ -18,7 +18,7 @@ RULE = (
     "Two generated directions. (reject, 2/3 of the cases, cheap) a valid generated model plus 1-3 violation "
     "operators applied together: n_periods in {0,-1}; no utility; a state without transition function; a name used "
     "as state and choice; a grid replaced by a list/None/JAX array; a function replaced by a non-callable; a "
-    "non-string key; the transition of a continuous state marked stochastic; a stochastic transition depending on a "
+    "non-string key; the transition of a continuous state marked stochastic (with its own signature, without dependencies, depending only on the period or only on a discrete variable); a stochastic transition depending on a "
     "continuous variable; a filter with a parameter; an invalid grid (start>=stop, n_points<1, non-numeric bound, "
     "non-dataclass categories, codes not 0..n-1). The sequence grid construction -> Model(...) -> "
     "get_lcm_function(...) must raise GridInitializationError, ModelInitilizationError or ValueError, never "
@@ -134,7 +134,25 @@ def apply_reject_op(plan, op, pick):
             plan.grid_makers[("s", "xcont")] = lambda: LinspaceGrid(start=0, stop=1, n_points=3)
             plan.functions["next_xcont"] = lambda xcont: xcont
             cs = ["xcont"]
-        plan.stochastic.add(f"next_{cs[pick[0] % len(cs)]}")
+        w = cs[pick[0] % len(cs)]
+        # the stochastic transition of the continuous state comes in several signatures: the
+        # model's own transition (depends on the state itself), no dependency, only the period,
+        # only a discrete variable
+        variant = pick[2] % 4
+        dvars = [v for v in S + C if spec.is_disc(v)]
+        if variant == 1 or (variant == 3 and not dvars):
+            sig = ""
+        elif variant == 2:
+            sig = "_period"
+        elif variant == 3:
+            sig = dvars[pick[3] % len(dvars)]
+        else:
+            sig = None
+        if sig is not None:
+            ns = {}
+            exec(f"def next_{w}({sig}):\n    pass\n", ns)  # noqa: S102
+            plan.functions[f"next_{w}"] = ns[f"next_{w}"]
+        plan.stochastic.add(f"next_{w}")
     elif op == "stochastic_continuous_dep":
         ds = [s for s in S if spec.is_disc(s)]
         if not ds:
